@@ -25,7 +25,7 @@ PROP = {
                   "exactly (including the (0,0,0,1) border and dropped translation), f64->f32 casts within one rounding, and the converted object must map a probe direction and point "
                   "like the original; Mat4::from(a*b) and Mat4::from(a)*Mat4::from(b), Mat4::from(a.inverse()) and Mat4::from(a).inverse() are compared with the exact product / inverse "
                   "(16u*kappa). Random conversion chains of length <= 4 are checked against the action of their start with the tolerance accumulated over the lossy edges taken. "
-                  "Failures shrink to a minimal input saved as a replay file. Exploration, not proof.",
+                  "Failures shrink to a minimal input saved as a replay file. The same sub-checks also run against the SSE2 build with glam-assert compiled in: the generated inputs satisfy the documented preconditions, so a panic there is a failure. Exploration, not proof.",
     "level_note": "Trusted: f64 and the double-double arithmetic of vcore as reference, to_cols_array/to_array/from_cols_array/from_array for moving entries (C17), proptest, the harness. "
                   "NEON/wasm32 backends cannot be built here.",
     "design_ref": "DESIGN.md section 5 C05",
